@@ -739,6 +739,23 @@ func (Scenario) Run(c choice.Chooser, opt sim.Options) sim.Result {
 			}
 		}
 	}
+	// A malformed update that the implementation ACCEPTS: the property does
+	// not say it must be rejected, and the model cannot know which value a
+	// lenient decoder took - such a history is not judged for
+	// linearizability (races, deadlocks and crashes in it still are). A
+	// malformed update that is rejected must leave the state untouched:
+	// that is the model's rule for it.
+	for cl := range plans {
+		for k, o := range plans[cl] {
+			if o.Kind == opBadUpdate && !results[cl][k].Err {
+				res.Count("probe:malformed-update-accepted-history-unjudged", 1)
+				if opt.WantSample {
+					res.Sample = detail()
+				}
+				return res
+			}
+		}
+	}
 	m := model(&g)
 	verdict, _ := porcupine.CheckOperationsVerbose(m, ops, 30*time.Second)
 	res.Count("porcupine:"+string(verdict), 1)
